@@ -1,6 +1,7 @@
 (* Properties/C08.v — verify reports exactly the differences. *)
 From Coq Require Import List Ascii String.
-From GT Require Import Base.GoStr Tree.Tree Tree.Grower Api.Simple Fs.FsModel Fs.Mkdir Fs.Verify Api.Programmable Proofs.FsBasic Proofs.Programmable.
+From GT Require Import Base.GoStr Tree.Tree Tree.Grower Api.Simple Fs.FsModel Fs.Mkdir Fs.Verify Api.Programmable
+  Proofs.Paths Proofs.FsBasic Proofs.Programmable Proofs.MkdirExact.
 Import ListNotations.
 
 (* per root: nil iff every node path exists and, in strict mode, nothing else exists beneath it *)
@@ -21,6 +22,21 @@ Theorem C08_sound : forall strict target f g e m,
   (forall p, In p e -> strict = true /\ In p (entries_under f (tjoin target (gpath g))) /\ ~ In p (md_paths target g)).
 Proof. exact verify_root_lists. Qed.
 Print Assumptions C08_sound.
+
+(* a tree just created by mkdir, with ANY extension list, verifies -- strictly and non-strictly *)
+Theorem C08_after_mkdir : forall bf exts tc ts f,
+  eok tc -> acc tc ->
+  Forall (fun t => Forall name_ok (tnames t)) ts -> all_nodup ts -> NoDup (map tname ts) ->
+  fs_ok f ->
+  (forall t, In t ts -> stat f (tjoin (pth tc) (tname t)) = StNone) ->
+  forall strict,
+    verifier strict (pth tc) (fst (mkdirer exts (dir_of tc) f (map (grow_root bf) ts))) (map (grow_root bf) ts) = Ok tt.
+Proof.
+  intros bf exts tc ts f H1 H2 H3 H4 H5 H6 H7 strict.
+  destruct (mkdir_exact bf exts tc ts f H1 H2 H3 H4 H5 H6 H7) as [Hm [_ [_ [_ [Hv _]]]]].
+  rewrite Hm. apply Hv.
+Qed.
+Print Assumptions C08_after_mkdir.
 
 (* verify never changes the file system: its model has no file-system result at all
    (verify_trees : ... -> res unit); the world of a history is unchanged by it *)
